@@ -31,9 +31,10 @@ CanonRm(j) ==
 Canon(j, model) ==
   [rules |-> SetOf(j.rules), specs |-> SetOf(j.specs), vring |-> SetOf(j.vring),
    infra |-> SetOf(j.infra), net |-> SetOf(j.net),
-   man |-> model.man, fin |-> model.fin, mem |-> model.mem, bad |-> {}]
+   man |-> model.man, fin |-> model.fin, failed |-> model.failed, mem |-> model.mem,
+   bad |-> {}]
 
-Model0 == [man |-> {}, fin |-> {}, mem |-> {}]
+Model0 == [man |-> {}, fin |-> {}, failed |-> {}, mem |-> {}]
 
 Obs(s) == [rules |-> s.rules, specs |-> s.specs, vring |-> s.vring, infra |-> s.infra,
            net |-> s.net]
@@ -43,11 +44,31 @@ AnyChoice(pre, line, rm) == CHOOSE v \in Choices(pre, line.ev, line.c, rm) : TRU
 Adopt(pre, line) ==
   LET rm == CanonRm(line.rm)
       m == Step(pre, line.ev, line.c, rm, AnyChoice(pre, line, rm)).post
-      logged == Canon(line.post, [man |-> m.man, fin |-> m.fin, mem |-> pre.mem]) IN
+      logged == Canon(line.post, [man |-> m.man, fin |-> m.fin, failed |-> m.failed,
+                                  mem |-> pre.mem]) IN
   Remember(pre, line.ev, line.c, logged)
+
+(* An aborted finish attempt (FinishFail line, res "raise"): where exactly    *)
+(* the real call sequence was cut is finer than the model's six groups and    *)
+(* set iteration orders are free, so it is explained by *what* it removed:    *)
+(* only things the finish of this container removes, and not the network      *)
+(* resource.                                                                  *)
+AbortExplained(pre, line, post) ==
+  LET c == line.c
+      m == ManOf(pre, c) IN
+  /\ line.res = "raise" /\ HasMan(pre, c) /\ ~m.shared /\ HasNet(pre, c)
+  /\ LET w == VipOf(pre, c) IN
+     /\ post.rules \subseteq pre.rules
+     /\ pre.rules \ post.rules \subseteq {<<r, c>> : r \in FinRules(m, w)}
+     /\ post.specs \subseteq pre.specs
+     /\ \A p \in pre.specs \ post.specs : p[1][1] = m.app /\ p[2] = c
+     /\ post.vring \subseteq pre.vring /\ pre.vring \ post.vring \subseteq {w}
+     /\ post.infra \subseteq pre.infra /\ pre.infra \ post.infra \subseteq FinInfra(m, w)
+     /\ post.net = pre.net
 
 Explained(pre, line, post) ==
   LET rm == CanonRm(line.rm) IN
+  IF line.ev = "FinishFail" THEN AbortExplained(pre, line, post) ELSE
   \E v \in Choices(pre, line.ev, line.c, rm) :
      LET r == Step(pre, line.ev, line.c, rm, v) IN
      r.res = line.res /\ Obs(r.post) = Obs(post)
@@ -55,7 +76,8 @@ Explained(pre, line, post) ==
 Verdict(pre, line, post) ==
   [fail |-> StepFail(pre, line.ev, line.c, line.res, post)
             \cup FailIf("drift.step", Explained(pre, line, post))
-            \cup FailIf("drift.alloc", line.ev = "Start" => RegOk(line.raw, CanonRm(line.rm))),
+            \cup FailIf("drift.alloc", (line.ev = "Start" /\ Has(line.rm, "eps"))
+                                         => RegOk(line.raw, CanonRm(line.rm))),
    ex |-> StepEx(pre, line.ev, line.c, post)]
 
 TrInit == /\ t \in DOMAIN Traces
